@@ -20,7 +20,7 @@ RULE = ("two (three) executions of the real algorithm through a setup on related
         "with ref_ind mapped, orthogonal mixing, time unit k in 10^U(-2,2) or 2^k) and a rounding probe (data * (1 + 1e-15 noise)); whole pole tables "
         "compared column by column as multisets of (f, xi, shape up to conjugation), NaN counts equal, extracted Fn/Xi/Phi and the frequency grid; a "
         "column is judged when the rounding probe moves it by <= 1e-8 (well conditioned), tolerance 1e-6; power-of-two gains and time units are "
-        "compared at 1e-12; non-trivial = the compared tables hold >= 4 finite poles; distinct by (algorithm, transformation, parameters, data seed)")
+        "compared at 1e-9; non-trivial = the compared tables hold >= 4 finite poles; distinct by (algorithm, transformation, parameters, data seed)")
 ASSUMPTIONS = ["orthogonal mixing is monitored with mpc_lim=-1, mpd_lim=10 because MPC/MPD are not rotation invariant (DESIGN 3/C08)",
                "step=1 only (the pinned tree cannot run step>1 through the SSI classes)",
                "columns that a 1e-15 relative perturbation of the data moves by more than 1e-8 are ill conditioned and not judged"]
@@ -295,14 +295,14 @@ def run_single_case(ctx, case, rng):
     if tr.startswith("gain"):
         other = run_single(data * t["g"], fs, spec, sel, ref)
         if tr == "gain_pow2":
-            tol = 1e-12
+            tol = 1e-9
     elif tr.startswith("time"):
         k = t["k"]
         spec2 = dict(spec)
         other = run_single_time(data, fs, k, spec, sel, ref)
         fscale = k
         if tr == "time_pow2":
-            tol = 1e-12
+            tol = 1e-9
     elif tr == "perm":
         perm = t["perm"]
         new_ref = None if ref is None else [perm.index(r) for r in ref]
@@ -357,7 +357,7 @@ def run_multi_case(ctx, case, rng):
         t = draw_transform(rng, tr, ndof)
         other = run_multi([d * t["g"] for d in datasets], reflist, fs, spec, sel)
         if tr == "gain_pow2":
-            tol = 1e-12
+            tol = 1e-9
     elif tr.startswith("time"):
         t = draw_transform(rng, tr, ndof)
         k = t["k"]
@@ -370,7 +370,7 @@ def run_multi_case(ctx, case, rng):
         other = a.result
         fscale = k
         if tr == "time_pow2":
-            tol = 1e-12
+            tol = 1e-9
     else:
         # permute the channels inside every setup, reference indices mapped; expected row order follows the library's layout rule
         new_cg, new_ref, perms = [], [], []
